@@ -74,6 +74,16 @@ def families(thorough):
             for b2 in NAMED:
                 s.append(Case(b1 + b2, stop='X', cache=1))       # a one-entry statement cache: evictions
     F['named'] = s
+    # -- statement caching seen from the client: several names, re-preparation under the same name, small caches, two servers
+    s = []
+    progs = [['Ps', 'S', 'Ps2', 'S', 'Bs', 'E', 'S', 'Bs2', 'E', 'S'], ['Ps', 'S', 'Cs', 'S', 'Ps1b', 'Bs', 'E', 'S'], ['Ps', 'Bs', 'E', 'S', 'Ps1b', 'Bs', 'E', 'S'],
+             ['Ps', 'Ps2', 'S', 'Bs2', 'E', 'Bs', 'E', 'S'], ['Ps', 'S', 'select', 'Bs', 'E', 'S', 'select2', 'Bs', 'E', 'S'], ['Ps', 'S', 'Ps2', 'S', 'Ps', 'S', 'Bs', 'E', 'S', 'Bs2', 'E', 'S'],
+             ['begin', 'Ps', 'Bs', 'E', 'S', 'commit', 'Bs', 'E', 'S'], ['Ps', 'Ds', 'S', 'Bs', 'E', 'S'], ['Ps2', 'S', 'Ps', 'S', 'Cs2', 'S', 'Bs', 'E', 'S']]
+    for t in progs:
+        for cache in (1, 2, 4):
+            s.append(Case(t, stop='X', cache=cache))
+            s.append(Case(t, stop='X', cache=cache, roles=(1, 1)))
+    F['cache'] = s
     # -- messages that are not what the protocol allows at that point (symbolic code byte, short bodies)
     s = []
     for pre in ([], ['begin'], ['Ps', 'S'], ['copyin']) + ((['begin', 'error'], ['begin', 'Ps', 'Bs']) if thorough else ()):
@@ -170,6 +180,7 @@ DESCR = {
     'session': 'the same in session pool mode',
     'extended': 'extended-protocol batches (Parse/Bind/Describe/Execute/Close with SYMBOLIC statement names and target kinds), ended by Sync, Flush+Sync, Flush or nothing, inside and outside BEGIN, statement caching off and on',
     'named': 'pairs of batches re-using / closing / describing a named statement, statement caching off and on',
+    'cache': 'client programs over two statement names (prepare, re-prepare under the same name, close, describe, interleaved simple queries, BEGIN..COMMIT) with server/pool statement caches of 1, 2 and 4 entries, on one server and on two (either may serve each transaction)',
     'malformed': 'a message with a SYMBOLIC code byte (each frontend code or any other byte) and a short body, arriving idle / in a transaction / after a Parse batch / in COPY IN',
     'cuts': 'the client socket reaches EOF inside its last message (every listed byte offset)',
     'pause': 'PAUSE arriving before the session or while the client is idle before its k-th message, with and without a later RESUME',
@@ -203,7 +214,7 @@ def handle_obligations(chk, prog, props, fams):
     tasks = []
     for fam in fams:
         cases = F[fam]
-        n = max(1, min(12, len(cases) // (4 if fam in ('status', 'plugins', 'malformed', 'commands') else 40)))
+        n = max(1, min(12, len(cases) // (4 if fam in ('status', 'plugins', 'malformed', 'commands', 'cache') else 40)))
         for i in range(n):
             tasks.append((prog, fam, i, n, cases[i::n], set(props)))
     chk.parallel(_run_chunk, tasks)
